@@ -164,11 +164,15 @@ func checkC15(t TB, c HistoryCase) c15Outcome {
 	var o c15Outcome
 	o.calls = len(c.Calls)
 	inproc := make([]string, len(c.Calls))
+	kept := make([]barcode.Barcode, len(c.Calls))
 	degs := map[int]bool{}
 	for i, s := range c.Calls {
 		before := append(BStr(nil), s.Content...)
 		bc, err, pv := encodeSpec(s)
 		inproc[i] = enc.Fingerprint(bc, err, pv)
+		if err == nil && pv == nil && !nilBarcode(bc) {
+			kept[i] = bc
+		}
 		if !bytes.Equal(before, s.Content) {
 			failf(t, P, K, c, "call %d modified its input", i)
 		}
@@ -229,6 +233,15 @@ func checkC15(t TB, c HistoryCase) c15Outcome {
 		}
 	}
 	o.rsDegrees = len(degs)
+	// every barcode returned during the history is a snapshot: later encodes must not have changed it
+	for i, bc := range kept {
+		if bc == nil {
+			continue
+		}
+		if fp := enc.Fingerprint(bc, nil, nil); fp != inproc[i] {
+			failf(t, P, K, c, "the barcode returned by call %d (%s) changed while later calls of the history were made", i, c.Calls[i].Label())
+		}
+	}
 	// the same history in one fresh process
 	seq, stderr, code, err := runOneshot(false, c.Calls, "seq")
 	if err != nil || code != 0 || len(seq.Fingerprints) != len(c.Calls) {
